@@ -1,6 +1,6 @@
 """C09 - verified copies are application-memory snapshots: no check/use window (snapshot + single-fetch shape)."""
 from .. import facts, q
-from ..engine import Engine, Inconclusive, C, fmt, subterms, lin
+from ..engine import root_param_names, Engine, Inconclusive, C, fmt, subterms, lin
 from ..common import site
 from .ops import strip_casts
 
@@ -30,14 +30,15 @@ def sandbox_reads(p, upto, this_is_volatile):
     return [e for e in p.events[:upto] if e.kind == "VREAD" and not (e.extra or {}).get("local") and is_sandbox_lv(e.a, this_is_volatile)]
 
 
-def verifier_calls(p):
-    """calls of the verifier parameter, also through by-value copies of it handed to a helper"""
+def verifier_calls(p, vname="verifier"):
+    """calls of the verifier parameter (the entry point's first parameter, whatever it is called), also through by-value copies of
+    it handed to a helper"""
     def is_verifier(o):
         o = strip_casts(o)
         for _ in range(6):
             if isinstance(o, tuple) and o[:1] == ("addr",):
                 o = o[1]
-            if o == ("pobj", "verifier"):
+            if o == ("pobj", vname):
                 return True
             c_ = p.state.mem.get(("copyof", o)) if isinstance(o, tuple) else None
             if c_ is None:
@@ -101,7 +102,7 @@ def check_variant(rep, db, f, inst):
         return
     this_ptr = ("rd", ("fld", THIS_OBJ, "data"))
     for p in ps:
-        vc = verifier_calls(p)
+        vc = verifier_calls(p, root_param_names(f)[0])
         if len(vc) != 1:
             rep.violation("R-C09-snapshot", site(f), "the verifier is called %d times on a path" % len(vc), f["loc"], inst)
             return
@@ -250,7 +251,7 @@ def check_struct(rep, db, f, inst):
     ps = Engine(db).run(f)
     vol = f["n"].startswith("rlbox::tainted_volatile::")
     for p in ps:
-        vc = [(i, e) for i, e in enumerate(p.events) if e.kind == "CALL" and e.c is not None and strip_casts(e.c) in (("pobj", "verifier"), ("addr", ("pobj", "verifier")))]
+        vc = verifier_calls(p, root_param_names(f)[0])
         if len(vc) != 1:
             rep.violation(rule, site(f), "verifier not called exactly once", f["loc"], inst)
             return
